@@ -43,6 +43,10 @@ pub enum Plan {
 }
 
 impl Plan {
+    /// plans in which a well-formed value goes out and comes back (or out only): where the *value* is the input dimension
+    fn is_round_trip(&self) -> bool {
+        matches!(self, Plan::SerClean { .. } | Plan::DeClean { .. } | Plan::Json | Plan::PodImage | Plan::RkyvImage | Plan::RkyvNested | Plan::Mint)
+    }
     fn to_json(&self) -> J {
         let (k, a, b) = match self {
             Plan::SerClean { hr } => ("SerClean", *hr as usize, 0),
@@ -120,6 +124,8 @@ pub struct CaseOut {
     /// the injected fault actually reached glam code (e.g. the failing call was made)
     pub fault_reached: bool,
     pub info: Vec<&'static str>,
+    /// values with relations between elements (see `shape_values`) run in addition to the case's own value
+    pub shape_values_run: usize,
 }
 
 impl CaseOut {
@@ -1260,6 +1266,99 @@ fn gen_value(e: &Entry19, seed: u64, ti: usize, vi: usize) -> Val {
     }
 }
 
+/// Values with *relations between their elements* that per-element sampling never produces: unit and nearly unit
+/// vectors / quaternions, orthonormal and nearly orthonormal matrices (a unit shape scaled by 1 + d for d from 3e-7 to
+/// 1e-2, both signs), identity scaled likewise, all elements equal, pairs of equal and of opposite elements, an affine
+/// translation equal to a column. Code that canonicalises, snaps, normalises or de-duplicates does so only here.
+/// Round-trip plans run all of them in addition to the per-element values.
+fn shape_values(t: TyId) -> Vec<Val> {
+    let n = t.n();
+    let el = t.elem();
+    let mut out: Vec<Vec<u64>> = Vec::new();
+    match el {
+        Elem::Bool => {}
+        Elem::F32 | Elem::F64 => {
+            let fb = |x: f64| if el == Elem::F32 { (x as f32).to_bits() as u64 } else { x.to_bits() };
+            let name = t.name();
+            // (d, translation elements): square / affine matrices
+            let (d, tr) = match name {
+                "Mat2" | "DMat2" => (2, 0),
+                "Mat3" | "Mat3A" | "DMat3" => (3, 0),
+                "Mat4" | "DMat4" => (4, 0),
+                "Affine2" | "DAffine2" => (2, 2),
+                "Affine3A" | "DAffine3" => (3, 3),
+                _ => (0, 0),
+            };
+            let mut bases: Vec<Vec<f64>> = Vec::new();
+            if d > 0 {
+                let rot: Vec<f64> = if d == 2 {
+                    let (s, c) = (0.3f64.sin(), 0.3f64.cos());
+                    vec![c, s, -s, c]
+                } else {
+                    // rotation of the unit quaternion (1, 2, 3, 4) / sqrt(30), column-major
+                    let k = 30f64.sqrt();
+                    let (x, y, z, w) = (1.0 / k, 2.0 / k, 3.0 / k, 4.0 / k);
+                    let r3 = [
+                        1.0 - 2.0 * (y * y + z * z), 2.0 * (x * y + w * z), 2.0 * (x * z - w * y),
+                        2.0 * (x * y - w * z), 1.0 - 2.0 * (x * x + z * z), 2.0 * (y * z + w * x),
+                        2.0 * (x * z + w * y), 2.0 * (y * z - w * x), 1.0 - 2.0 * (x * x + y * y),
+                    ];
+                    (0..d * d).map(|i| { let (c, r) = (i / d, i % d); if c < 3 && r < 3 { r3[c * 3 + r] } else if c == r { 1.0 } else { 0.0 } }).collect()
+                };
+                let ident: Vec<f64> = (0..d * d).map(|i| if i / d == i % d { 1.0 } else { 0.0 }).collect();
+                bases.push(rot);
+                bases.push(ident);
+            } else {
+                let norm = (1..=n).map(|i| (i * i) as f64).sum::<f64>().sqrt();
+                bases.push((1..=n).map(|i| i as f64 / norm).collect());
+                bases.push((0..n).map(|i| if i + 1 == n { 1.0 } else { 0.0 }).collect());
+                if n >= 3 {
+                    bases.push((0..n).map(|i| [0.6, 0.0, 0.8, 0.0][i]).collect());
+                }
+            }
+            let deltas = [0.0, 3e-7, -3e-7, 2e-6, -2e-6, 1e-5, -1e-5, 1e-4, -1e-4, 2e-4, 5e-4, -5e-4, 1e-3, -1e-3, 5e-3, 1e-2, -1e-2];
+            for b in &bases {
+                for dl in deltas {
+                    let mut v: Vec<f64> = b.iter().map(|x| x * (1.0 + dl)).collect();
+                    // zero translation and (1, 2, 3): alternate
+                    v.extend((0..tr).map(|i| if dl > 0.0 { 1.0 + i as f64 } else { 0.0 }));
+                    out.push(v.iter().map(|x| fb(*x)).collect());
+                }
+            }
+            let ord: Vec<f64> = (1..=n).map(|i| i as f64 + 0.25).collect();
+            out.push(vec![fb(0.7); n]);
+            let mut v = ord.clone(); v[1] = v[0]; out.push(v.iter().map(|x| fb(*x)).collect());
+            let mut v = ord.clone(); v[1] = -v[0]; out.push(v.iter().map(|x| fb(*x)).collect());
+            let mut v = ord.clone(); v[n - 1] = v[0]; out.push(v.iter().map(|x| fb(*x)).collect());
+            let mut v = ord.clone(); v[n - 1] = -v[n - 2]; out.push(v.iter().map(|x| fb(*x)).collect());
+            out.push(ord.iter().enumerate().map(|(i, x)| fb(if i % 2 == 0 { *x } else { -ord[i - 1] })).collect());
+            if tr > 0 {
+                // translation equal to the first column / to the last column
+                let mut v = ord.clone(); for i in 0..tr { v[d * d + i] = v[i]; } out.push(v.iter().map(|x| fb(*x)).collect());
+                let mut v = ord.clone(); for i in 0..tr { v[d * d + i] = v[d * (d - 1) + i]; } out.push(v.iter().map(|x| fb(*x)).collect());
+            }
+            if d > 0 {
+                // two equal columns; a symmetric matrix
+                let mut v = ord.clone(); for i in 0..d { v[d + i] = v[i]; } out.push(v.iter().map(|x| fb(*x)).collect());
+                let mut v = ord.clone(); for c in 0..d { for r in 0..c { v[c * d + r] = v[r * d + c]; } } out.push(v.iter().map(|x| fb(*x)).collect());
+            }
+        }
+        _ => {
+            let mut rng = Rng::new(0, "c19-shape", n as u64);
+            let big = gen_scalar_bits(el, &mut rng, Cls::RandomBits);
+            let ord: Vec<u64> = (1..=n).map(|i| ordinal(el, i + 1)).collect();
+            out.push(vec![ordinal(el, 7); n]);
+            out.push(vec![big; n]);
+            let mut v = ord.clone(); v[1] = v[0]; out.push(v);
+            let mut v = ord.clone(); v[n - 1] = v[0]; out.push(v);
+            let mut v = ord.clone(); v[0] = big; v[n - 1] = big; out.push(v);
+            // x == -y where the type has a sign (two's complement of the ordinal, cut to the element width by from_bits)
+            let mut v = ord.clone(); v[1] = gen_scalar_bits(el, &mut rng, Cls::Lattice(2)); v[0] = ordinal(el, 1); out.push(v);
+        }
+    }
+    out.into_iter().filter(|b| b.len() == n).map(|b| t.from_bits(&b)).collect()
+}
+
 fn ordinal(e: Elem, k: usize) -> u64 {
     match e {
         Elem::F32 => (k as f32).to_bits() as u64,
@@ -1320,6 +1419,7 @@ pub fn run(seed: u64, values_per_plan: usize, workers: usize) -> Summary {
         sum.faults_effective.insert(k.into(), 0);
     }
     let total = cases.len() * values_per_plan;
+    let mut shape_total = 0usize;
     let job = |i: usize| {
         let (ti, plan) = &cases[i / values_per_plan];
         let vi = i % values_per_plan;
@@ -1334,6 +1434,19 @@ pub fn run(seed: u64, values_per_plan: usize, workers: usize) -> Summary {
                 }
                 v = gen_value(e, seed, *ti, vi + k * values_per_plan.max(8));
                 o = run_plan(e, plan, &v);
+            }
+        }
+        if vi == 0 && o.viol.is_none() && plan.is_round_trip() {
+            if let Ty::G(t) = e.ty {
+                for sv in shape_values(t) {
+                    let o2 = run_plan(e, plan, &sv);
+                    if o2.viol.is_some() {
+                        v = sv;
+                        o.viol = o2.viol;
+                        break;
+                    }
+                    o.shape_values_run += 1;
+                }
             }
         }
         let viol = o.viol.as_ref().map(|(class, detail)| {
@@ -1360,6 +1473,8 @@ pub fn run(seed: u64, values_per_plan: usize, workers: usize) -> Summary {
         for k in &o.info {
             sum.probe(k);
         }
+        sum.evaluations += o.shape_values_run as u64;
+        shape_total += o.shape_values_run;
         if matches!(plan, Plan::SerClean { .. } | Plan::Json | Plan::PodImage | Plan::RkyvImage) {
             // the serialised *forms*: what must be byte-identical across backends
             sum.digest(e.name).push(o.log.finish());
@@ -1375,6 +1490,7 @@ pub fn run(seed: u64, values_per_plan: usize, workers: usize) -> Summary {
     sum.extra.insert("plans_enumerated".into(), json!(cases.len()));
     sum.extra.insert("values_per_plan".into(), json!(values_per_plan));
     sum.extra.insert("exhaustive_over_plans".into(), json!(true));
+    sum.extra.insert("shape_value_round_trips".into(), json!(shape_total));
     sum
 }
 
